@@ -2,6 +2,7 @@ package sim
 
 import (
 	"bytes"
+	"crypto/sha256"
 	"fmt"
 	"math/big"
 	"sort"
@@ -405,8 +406,11 @@ func (b *Builder) drawFile(name string) ([]byte, types.Hash256) {
 	}
 	seed := rapid.Byte().Draw(t, name+"fill")
 	data := make([]byte, size)
-	for i := range data {
-		data[i] = seed + byte(i*7) + byte(i>>8)
+	// pseudo-random fill keyed by (seed, size): distinct files share no leaves, so a proof for one
+	// file is never by accident a proof for another
+	for off := 0; off < size; off += 32 {
+		blk := sha256.Sum256([]byte{seed, byte(size), byte(size >> 8), byte(size >> 16), byte(off >> 5), byte(off >> 13)})
+		copy(data[off:], blk[:])
 	}
 	root := types.Hash256(ref.FileRoot(data))
 	b.W.Files[root] = data
